@@ -329,6 +329,25 @@ process_line(const char *fname, char *line, int lineno) {
         ret += der_tlv_length_serialize(tlv_len, buf + ret, sizeof(buf) - ret);
         assert(ret >= 2 && (size_t)ret < sizeof(buf));
     }
+    if(constr != 2 && opt_tl_len > ret && (size_t)opt_tl_len < sizeof(buf)) {
+        /*
+         * The original encoding used a longer than necessary long form
+         * of the length (X.690, 8.1.3.5, Note 2). Reproduce it by padding
+         * the length octets with leading zeros up to the given TL size.
+         */
+        ssize_t tag_len = ber_tlv_tag_serialize(tlv_tag, buf, sizeof(buf));
+        ssize_t len_octets = opt_tl_len - tag_len - 1;
+        ssize_t i;
+        if(len_octets >= 1 && len_octets <= 126) {
+            buf[tag_len] = 0x80 | len_octets;
+            for(i = 0; i < len_octets; i++) {
+                size_t shift = 8 * (len_octets - 1 - i);
+                buf[tag_len + 1 + i] =
+                    shift < 8 * sizeof(tlv_len) ? (tlv_len >> shift) & 0xff : 0;
+            }
+            ret = opt_tl_len;
+        }
+    }
     if(opt_tl_len && ret != opt_tl_len) {
         fprintf(stderr,
                 "%s: Cannot encode TL at line %d "
